@@ -633,6 +633,7 @@ var c12Values = []string{
 	"0", "-1", "0.5", "255", "256", "65536", "2147483648", "4294967296", "9007199254740992", "9223372036854775808",
 	"18446744073709551616", "1e19", "1e300", "-1e300", "5e-324",
 	`""`, `"abc"`, `"12"`, `"-3"`, `"1e5"`, `"NaN"`, `"Inf"`, `"-Infinity"`, `"true"`, "BIGSTRING",
+	"1.7976931348623157e308", "-1.7976931348623157e308", `"1.7976931348623157e308"`, `"-1.7976931348623159e308"`,
 	`"-Inf"`, `"+Inf"`, `"1e999"`, `"-1e999"`, `"-nan"`, `"0x1p-2"`, `"1_0"`, "-0.0", "1e-400", `"9223372036854775808"`, `"-9223372036854775809"`,
 	"true", "false", "null", "[]", "[1,2]", "{}", `{"a":1}`, "[[1],[2]]", `{"a":{"b":[1]}}`,
 }
@@ -774,7 +775,7 @@ func (cs *connState) buildPut(w *world, d caseDesc, rnd *rand.Rand) *request {
 		// arg enumerates (value, target) pairs: the value index runs fastest, the target shifts by one per round, so that
 		// len(c12Values)*len(targets) consecutive args are all pairs and any shorter prefix still uses every value
 		vi := arg % len(c12Values)
-		t = w.target(arg + arg/len(c12Values))
+		t = w.target(arg%len(c12Values) + arg/len(c12Values))
 		val := c12Values[vi]
 		if val == "BIGSTRING" {
 			val = `"` + strings.Repeat("s", 10240) + `"`
